@@ -243,7 +243,7 @@ func (s *Server) verifyConsensusFieldMain(cp *params.CaravelParams, seedHeader *
 	// verify priority, also do sortition verification
 	addr := crypto.PubkeyToAddress(*pubKey)
 	validator := vldReader.GetValidatorByMainAddr(addr)
-	if validator == nil {
+	if validator == nil || validator.IsOffline() || validator.Kind() != params.KindChamber {
 		logging.Error("VerifyHeader failed")
 		return errors.New("illegal proposer")
 	}
@@ -437,6 +437,10 @@ func (s *Server) verifyVotes(cd *commonData, votes []SingleVote, asig []byte, st
 			validator = cd.lbVld.GetValidatorByMainAddr(addr)
 		}
 		if staData[addr] == true {
+			continue
+		}
+		// only online validators of the required kind are entitled to vote
+		if validator == nil || validator.IsOffline() || validator.Kind() != kind {
 			continue
 		}
 
